@@ -188,8 +188,8 @@ func runC12(c *Ctx) {
 				rec.Violate("returned-values", "259", "VerifyHashEnvelope returned another preimage content type", in)
 			}
 		}
-		if i%2000 == 0 {
-			rec.Sample("produced", map[string]any{"envelope": hexs(env), "placement": placement})
+		if i%900 == 0 {
+			rec.Sample(fmt.Sprintf("produced-%d", i), map[string]any{"envelope": hexs(env), "placement": placement})
 		}
 	})
 
@@ -320,8 +320,8 @@ func runC12(c *Ctx) {
 				rec.Violate("returned-values", "grid-258-type", "returned hash algorithm is not typed as Algorithm", in)
 			}
 		}
-		if i%9000 == 0 {
-			rec.Sample("grid", map[string]any{"cell": cell, "envelope": hexs(env), "accepted": lib})
+		if i%6000 == 1 {
+			rec.Sample(fmt.Sprintf("grid-%d", i), map[string]any{"cell": cell, "envelope": hexs(env), "accepted": lib})
 		}
 	})
 	_ = refcrypto.ES256
